@@ -914,4 +914,61 @@ example : (fit (Converter.bundled Rat) ⟨.number (.regular (3/10)), some ['l','
       ⟨.number (.regular (-40)), some ['°','F']⟩ := by decide +kernel
 -- ===== end w6numeric =====
 
+-- ===== w7reauditB =====
+
+/-- **`find_unit` is an exact lookup.**  The unit found under a key has that key LITERALLY among its names, symbols and
+    aliases (character by character: no case folding, no trimming, no prefix or fuzzy match) and is a unit of the
+    converter; nothing is found exactly when no unit of the converter has the key.  (Before this theorem "unknown unit"
+    was only ever said through the lookup itself, `c.findUnit k = none`; a lookup that also accepted `M` for `m` would
+    have satisfied every statement.) -/
+theorem C09_find_unit_exact (c : Converter Rat) (k : Str) :
+    (∀ u, c.findUnit k = some u → u ∈ c.allUnits ∧ k ∈ u.allKeys) ∧
+    (c.findUnit k = none ↔ ∀ u, u ∈ c.allUnits → k ∉ u.allKeys) := by
+  constructor
+  · intro u h
+    have h1 := List.mem_of_find?_eq_some h
+    have h2 := List.find?_some h
+    exact ⟨h1, by simpa using h2⟩
+  · unfold Converter.findUnit
+    rw [List.find?_eq_none]
+    constructor
+    · intro h u hu hk; exact h u hu (by simpa using hk)
+    · intro h u hu hk; exact h u hu (by simpa using hk)
+
+/-- **"Conversion … of unknown units fails and leaves the quantity unchanged", with "unknown" said by the converter's
+    content**: when the unit text of a quantity is not (literally) a name, symbol or alias of any unit of the converter,
+    every conversion — to a unit, to a system, within the own system — fails with `UnknownUnit(text)` and the quantity is
+    exactly as before; `fit` and `try_fraction` leave it alone; the recipe-wide conversion records exactly that one error
+    for it.  Likewise an unknown TARGET key fails the conversion of a numeric quantity in a known unit.
+    Every converter, sound or not. -/
+theorem C09_unknown_unit_unchanged (c : Converter Rat) (q : SQuantity Rat) (k : Str)
+    (hk : ∀ u, u ∈ c.allUnits → k ∉ u.allKeys) :
+    (q.unit = some k →
+      (∀ to, convertImpl c q to = (q, .error (.unknownUnit k))) ∧
+      fit c q = (q, .ok ()) ∧ tryFraction c q = (q, false) ∧
+      ∀ s, convStep c s q = (q, [.unknownUnit k])) ∧
+    (∀ u, unitInfo c q = some u → q.value.isText = false →
+      convertImpl c q (.unit (.key k)) = (q, .error (.unknownUnit k))) := by
+  have hf : c.findUnit k = none := (C09_find_unit_exact c k).2.mpr hk
+  refine ⟨fun hq => ?_, fun u hu hv => (C09_failures_unchanged c q).2.2.2.2.1 u k hu hv hf⟩
+  have hconv : ∀ to, convertImpl c q to = (q, .error (.unknownUnit k)) :=
+    fun to => (C09_failures_unchanged c q).2.1 to k hq hf
+  have hinfo : unitInfo c q = none := by simp [unitInfo, hq, hf]
+  refine ⟨hconv, by simp [fit, hinfo], by simp [tryFraction, hinfo], fun s => ?_⟩
+  simp [convStep, hconv]
+
+/-- non-vacuity, on the shipped converter: `M`, `Kg`, `ML`, `Tbsp` are no keys of any unit (`m`, `kg`, `ml`, `tbsp` are), so
+    `2 M` (two size-M eggs) is not two metres: converting it to the metric system fails with `UnknownUnit("M")` and leaves it
+    as it is, while `2 m` converts -/
+example : (∀ k ∈ [['M'], ['K','g'], ['M','L'], ['T','b','s','p']],
+      ∀ u, u ∈ (Converter.bundled Rat).allUnits → k ∉ u.allKeys) ∧
+    ((Converter.bundled Rat).findUnit ['m']).isSome = true := by decide +kernel
+example : convertImpl (Converter.bundled Rat) ⟨.number (.regular 2), some ['M']⟩ (.best .metric) =
+      (⟨.number (.regular 2), some ['M']⟩, .error (.unknownUnit ['M'])) :=
+  ((C09_unknown_unit_unchanged (Converter.bundled Rat) ⟨.number (.regular 2), some ['M']⟩ ['M']
+    (by decide +kernel)).1 rfl).1 _
+example : (convertImpl (Converter.bundled Rat) ⟨.number (.regular 2), some ['m']⟩ (.best .imperial)).2.toOption = some () := by
+  decide +kernel
+-- ===== end w7reauditB =====
+
 end Cook
